@@ -1135,19 +1135,23 @@ func runStorageFold(r *mon.Run, c stFold, q *int64) {
 func TestStorage(t *testing.T) {
 	r := mon.Start("C08", "storage")
 	var rc []stRec
-	if ok, err := mon.ReplayCase("storage", &rc); ok {
-		if err != nil {
-			t.Fatal(err)
-		}
+	var probe any
+	if ok, _ := mon.ReplayCase("storage", &probe); ok {
+		// three case kinds: a list of records, a large-universe history, a special-casing history
 		var q int64
 		var bc stBig
 		var fc stFold
-		if ok3, _ := mon.ReplayCase("storage", &fc); ok3 && fc.Fold {
+		if _, isList := probe.([]any); isList {
+			if _, err := mon.ReplayCase("storage", &rc); err != nil {
+				t.Fatal(err)
+			}
+			runStorage(r, rc, &q)
+		} else if _, err := mon.ReplayCase("storage", &fc); err == nil && fc.Fold {
 			runStorageFold(r, fc, &q)
-		} else if ok2, _ := mon.ReplayCase("storage", &bc); ok2 && bc.Steps > 0 {
+		} else if _, err := mon.ReplayCase("storage", &bc); err == nil && bc.Steps > 0 {
 			runStorageBig(r, bc, &q)
 		} else {
-			runStorage(r, rc, &q)
+			t.Fatalf("unknown storage case %v", probe)
 		}
 		r.Eval(q)
 		r.NontrivialN(2)
